@@ -8,9 +8,12 @@
 (*   HandleMessage:  started -> forward                                    *)
 (*                           -> mark -> lookup -> [create ->] add          *)
 (*   Send:           send -> fwdsend -> {started -> forward}* (drain)      *)
-(* (the yield points recv, limit, gcmark, gcsweep are passed through: no   *)
-(* shared state is changed there in the scenarios of C14: every sender is  *)
-(* within the limits and the epoch clock does not advance).                *)
+(*                        -> gcmark -> gcsweep                             *)
+(* (the yield points recv and limit are passed through: every sender is    *)
+(* within the limits.  The epoch clock does not advance, so mark selects   *)
+(* only buffers whose lastUsed is still the zero time: entries that were   *)
+(* created but to which no message has been added yet; sweep removes such  *)
+(* an entry AND the started mark of its topic.)                            *)
 (* Buffered lists are objects with identity (the code holds a pointer to a *)
 (* storedMessages that may meanwhile have been removed from the map).      *)
 (***************************************************************************)
@@ -33,45 +36,46 @@ VARIABLES started,   \* set of topics with an entry in startedSending
           th,        \* [Threads -> [oi, pc, cur, held, snap, di, nested]]
           devStale,  \* named deviation: a message was stored although its topic had already started
           devOvertake, \* named deviation: a message was forwarded directly while an earlier one of the same sender was still being drained
+          devSweep,  \* named deviation: the collector removed a fresh (still empty) buffer and un-started its topic
           ev         \* last event (not part of the VIEW)
 
-vars == <<started, pmap, lists, nl, inflight, handed, fsent, th, devStale, devOvertake, ev>>
-view == <<started, pmap, lists, nl, inflight, handed, fsent, th, devStale, devOvertake>>
+vars == <<started, pmap, lists, nl, inflight, handed, fsent, th, devStale, devOvertake, devSweep, ev>>
+view == <<started, pmap, lists, nl, inflight, handed, fsent, th, devStale, devOvertake, devSweep>>
 
 FirstPC(op) == IF op.k = "recv" THEN "started" ELSE "send"
 
 InitThread(t) == [oi |-> 1, pc |-> IF Prog[t] = <<>> THEN "done" ELSE FirstPC(Prog[t][1]),
                   cur |-> IF Prog[t] # <<>> /\ Prog[t][1].k = "recv" THEN Prog[t][1].m ELSE None,
-                  held |-> 0, snap |-> <<>>, di |-> 0, nested |-> FALSE]
+                  held |-> 0, snap |-> <<>>, di |-> 0, nested |-> FALSE, gcdel |-> {}]
 
 Init == /\ started = {} /\ pmap = [t \in Topics |-> 0] /\ lists = [i \in 1..MaxLists |-> <<>>] /\ nl = 0
         /\ inflight = {} /\ handed = <<>> /\ fsent = <<>>
         /\ th = [t \in Threads |-> InitThread(t)]
-        /\ devStale = FALSE /\ devOvertake = FALSE /\ ev = ""
+        /\ devStale = FALSE /\ devOvertake = FALSE /\ devSweep = FALSE /\ ev = ""
 
 \* the thread finished the current public call (or the current drained message)
 \* r: the thread record after the step's own updates
+NextOp(t, r) ==
+  LET oi2 == r.oi + 1 IN
+  IF oi2 <= Len(Prog[t])
+    THEN [r EXCEPT !.oi = oi2, !.pc = FirstPC(Prog[t][oi2]), !.nested = FALSE, !.snap = <<>>, !.di = 0, !.held = 0, !.gcdel = {},
+                   !.cur = IF Prog[t][oi2].k = "recv" THEN Prog[t][oi2].m ELSE None]
+    ELSE [r EXCEPT !.oi = oi2, !.pc = "done", !.nested = FALSE, !.snap = <<>>, !.di = 0, !.held = 0, !.gcdel = {}, !.cur = None]
+
 Advance(t, r) ==
   IF r.nested
     THEN IF r.di < Len(r.snap)
            THEN [r EXCEPT !.di = r.di + 1, !.cur = r.snap[r.di + 1], !.pc = "started", !.held = 0]
-           ELSE \* drain finished; maybeGC passes through; the Send call returns
-                LET oi2 == r.oi + 1 IN
-                IF oi2 <= Len(Prog[t])
-                  THEN [r EXCEPT !.oi = oi2, !.pc = FirstPC(Prog[t][oi2]), !.nested = FALSE, !.snap = <<>>, !.di = 0, !.held = 0,
-                                 !.cur = IF Prog[t][oi2].k = "recv" THEN Prog[t][oi2].m ELSE None]
-                  ELSE [r EXCEPT !.oi = oi2, !.pc = "done", !.nested = FALSE, !.snap = <<>>, !.di = 0, !.held = 0, !.cur = None]
-    ELSE LET oi2 == r.oi + 1 IN
-         IF oi2 <= Len(Prog[t])
-           THEN [r EXCEPT !.oi = oi2, !.pc = FirstPC(Prog[t][oi2]), !.held = 0,
-                          !.cur = IF Prog[t][oi2].k = "recv" THEN Prog[t][oi2].m ELSE None]
-           ELSE [r EXCEPT !.oi = oi2, !.pc = "done", !.held = 0, !.cur = None]
+           ELSE [r EXCEPT !.pc = "gcmark", !.cur = None, !.held = 0]      \* drain finished: deferred maybeGC
+    ELSE NextOp(t, r)
 
 \* is an earlier message of the same sender and topic still waiting in some thread's drain snapshot?
 BeingDrained(m) ==
-  \E u \in Threads : th[u].nested /\ \E i \in th[u].di..Len(th[u].snap) :
-       i >= 1 /\ th[u].snap[i].src = m.src /\ th[u].snap[i].topic = m.topic /\ th[u].snap[i].id # m.id
-       /\ ~(i = th[u].di /\ th[u].pc = "done")
+  \E u \in Threads :
+     LET waiting == IF th[u].pc = "fwdsend" THEN DOMAIN th[u].snap
+                    ELSE IF th[u].nested THEN {i \in DOMAIN th[u].snap : i >= th[u].di}
+                    ELSE {} IN
+     \E i \in waiting : th[u].snap[i].src = m.src /\ th[u].snap[i].topic = m.topic /\ th[u].snap[i].id # m.id
 
 Step(t) ==
   LET r == th[t]  m == r.cur IN
@@ -79,19 +83,19 @@ Step(t) ==
   /\ ev' = t
   /\ CASE r.pc = "started" ->     \* hasStartedSending
             /\ th' = [th EXCEPT ![t].pc = IF m.topic \in started THEN "forward" ELSE "mark"]
-            /\ UNCHANGED <<started, pmap, lists, nl, inflight, handed, fsent, devStale, devOvertake>>
+            /\ UNCHANGED <<started, pmap, lists, nl, inflight, handed, fsent, devStale, devOvertake, devSweep>>
        [] r.pc = "forward" ->     \* MessageHandler.HandleMessage(msg)
             /\ handed' = Append(handed, m.id)
             /\ devOvertake' = (devOvertake \/ (~r.nested /\ BeingDrained(m)))
             /\ th' = [th EXCEPT ![t] = Advance(t, r)]
-            /\ UNCHANGED <<started, pmap, lists, nl, inflight, fsent, devStale>>
+            /\ UNCHANGED <<started, pmap, lists, nl, inflight, fsent, devStale, devSweep>>
        [] r.pc = "mark" ->        \* markTopicForSender
             /\ inflight' = inflight \cup {<<m.src, m.topic>>}
             /\ th' = [th EXCEPT ![t].pc = "lookup"]
-            /\ UNCHANGED <<started, pmap, lists, nl, handed, fsent, devStale, devOvertake>>
+            /\ UNCHANGED <<started, pmap, lists, nl, handed, fsent, devStale, devOvertake, devSweep>>
        [] r.pc = "lookup" ->      \* getOrCreateMessagesByTopic, read-locked lookup
             /\ th' = [th EXCEPT ![t].pc = IF pmap[m.topic] # 0 THEN "add" ELSE "create", ![t].held = pmap[m.topic]]
-            /\ UNCHANGED <<started, pmap, lists, nl, inflight, handed, fsent, devStale, devOvertake>>
+            /\ UNCHANGED <<started, pmap, lists, nl, inflight, handed, fsent, devStale, devOvertake, devSweep>>
        [] r.pc = "create" ->      \* getOrCreateMessagesByTopic, write-locked double check + create
             /\ IF pmap[m.topic] # 0
                  THEN /\ th' = [th EXCEPT ![t].pc = "add", ![t].held = pmap[m.topic]]
@@ -99,22 +103,32 @@ Step(t) ==
                  ELSE /\ nl' = nl + 1
                       /\ pmap' = [pmap EXCEPT ![m.topic] = nl + 1]
                       /\ th' = [th EXCEPT ![t].pc = "add", ![t].held = nl + 1]
-            /\ UNCHANGED <<started, lists, inflight, handed, fsent, devStale, devOvertake>>
+            /\ UNCHANGED <<started, lists, inflight, handed, fsent, devStale, devOvertake, devSweep>>
        [] r.pc = "add" ->         \* storedMessages.add
             /\ lists' = [lists EXCEPT ![r.held] = Append(@, m)]
             /\ devStale' = (devStale \/ m.topic \in started)
             /\ th' = [th EXCEPT ![t] = Advance(t, r)]
-            /\ UNCHANGED <<started, pmap, nl, inflight, handed, fsent, devOvertake>>
+            /\ UNCHANGED <<started, pmap, nl, inflight, handed, fsent, devOvertake, devSweep>>
        [] r.pc = "send" ->        \* Send, critical section: mark started, snapshot, delete
             LET tp == Prog[t][r.oi].t IN
             /\ started' = started \cup {tp}
             /\ pmap' = [pmap EXCEPT ![tp] = 0]
             /\ th' = [th EXCEPT ![t].pc = "fwdsend", ![t].snap = IF pmap[tp] = 0 THEN <<>> ELSE lists[pmap[tp]]]
-            /\ UNCHANGED <<lists, nl, inflight, handed, fsent, devStale, devOvertake>>
+            /\ UNCHANGED <<lists, nl, inflight, handed, fsent, devStale, devOvertake, devSweep>>
        [] r.pc = "fwdsend" ->     \* ForwardSend, then the deferred drain begins
             /\ fsent' = Append(fsent, Prog[t][r.oi].t)
             /\ th' = [th EXCEPT ![t] = Advance(t, [r EXCEPT !.nested = TRUE, !.di = 0])]
-            /\ UNCHANGED <<started, pmap, lists, nl, inflight, handed, devStale, devOvertake>>
+            /\ UNCHANGED <<started, pmap, lists, nl, inflight, handed, devStale, devOvertake, devSweep>>
+       [] r.pc = "gcmark" ->      \* maybeGC / mark (read lock): buffers whose lastUsed is the zero time count as expired
+            /\ th' = [th EXCEPT ![t].pc = "gcsweep", ![t].gcdel = {tp \in Topics : pmap[tp] # 0 /\ lists[pmap[tp]] = <<>>}]
+            /\ UNCHANGED <<started, pmap, lists, nl, inflight, handed, fsent, devStale, devOvertake, devSweep>>
+       [] r.pc = "gcsweep" ->     \* sweep (write lock): drop the buffer, the senders' bookkeeping and the started mark
+            /\ pmap' = [tp \in Topics |-> IF tp \in r.gcdel THEN 0 ELSE pmap[tp]]
+            /\ started' = started \ r.gcdel
+            /\ inflight' = {x \in inflight : ~(x[2] \in r.gcdel /\ pmap[x[2]] # 0 /\ \E i \in DOMAIN lists[pmap[x[2]]] : lists[pmap[x[2]]][i].src = x[1])}
+            /\ devSweep' = (devSweep \/ r.gcdel # {})
+            /\ th' = [th EXCEPT ![t] = NextOp(t, r)]
+            /\ UNCHANGED <<lists, nl, handed, fsent, devStale, devOvertake>>
 
 Next == \E t \in Threads : Step(t)
 Spec == Init /\ [][Next]_vars
@@ -123,12 +137,13 @@ Spec == Init /\ [][Next]_vars
 Terminal == \A t \in Threads : th[t].pc = "done"
 
 \* every message passed to Box.HandleMessage by a connection thread
-Received == {Prog[t][i].m : t \in Threads, i \in {j \in DOMAIN Prog[t] : Prog[t][j].k = "recv"}} \ {None}
+Received == UNION {{Prog[t][i].m : i \in {j \in DOMAIN Prog[t] : Prog[t][j].k = "recv"}} : t \in Threads}
 
 Count(s, x) == Cardinality({i \in DOMAIN s : s[i] = x})
 
 \* parameterised by the hand-off log h (model: handed; conformance: the observed log) and the started topics
 NoDupOn(h) == \A m \in Received : Count(h, m.id) <= 1
+\* st: the topics on which the local party has sent (ForwardSend was called)
 ExactlyOnceOn(h, st) == \A m \in Received : m.topic \in st => Count(h, m.id) = 1
 
 \* arrival order of one sender's messages = program order of its connection thread
@@ -140,9 +155,10 @@ PerSenderOrderOn(h) ==
 
 NoDup == NoDupOn(handed)
 \* design-level statement: the named deviations are the ONLY way the pinned code can violate C14
-ExactlyOnceUnlessStale   == (Terminal /\ ~devStale) => ExactlyOnceOn(handed, started)
-OrderUnlessOvertake      == ~devOvertake => PerSenderOrderOn(handed)
+SentOn == {fsent[i] : i \in DOMAIN fsent}
+ExactlyOnceUnlessStale   == (Terminal /\ ~devStale /\ ~devSweep) => ExactlyOnceOn(handed, SentOn)
+OrderUnlessDeviation     == ~(devOvertake \/ devStale \/ devSweep) => PerSenderOrderOn(handed)
 \* what the property demands (violated by the pinned code: known findings)
-ExactlyOnce    == Terminal => ExactlyOnceOn(handed, started)
+ExactlyOnce    == Terminal => ExactlyOnceOn(handed, SentOn)
 PerSenderOrder == PerSenderOrderOn(handed)
 =============================================================================
